@@ -30,7 +30,11 @@ EXTRA_FAULTS = {
     "bad-callback-body": [("onWindowTitleChanged", "noSuchObject.hide()"), ("onWindowTitleChanged", "{ let a = 1; a = \"s\" }"),
                           ("onWindowTitleChanged", "function(a: int, b: int, c: int) {}"), ("onWindowTitleChanged", "1 +")],
     "enum-mismatch": [("focusPolicy", "Qt.AlignLeft"), ("layoutDirection", "1"), ("contextMenuPolicy", '"none"'),
-                      ("focusPolicy", "Qt.NoSuchEnumerator")],
+                      ("focusPolicy", "Qt.NoSuchEnumerator"),
+                      # a variant of ANOTHER plain (non-flag) enum: constant, grouped and dynamic
+                      ("focusPolicy", "Qt.PlainText"), ("layoutDirection", "Qt.Horizontal"), ("contextMenuPolicy", "Qt.StrongFocus"),
+                      ("sizePolicy.verticalPolicy", "QSlider.TicksBelow"), ("sizePolicy.horizontalPolicy", "Qt.Vertical"),
+                      ("focusPolicy", "%BOOL% ? Qt.PlainText : Qt.RichText"), ("layoutDirection", "%BOOL% ? Qt.Horizontal : Qt.Vertical")],
     "dynamic-to-unwritable": [("width", "%INT%"), ("isActiveWindow", "%BOOL%")],
 }
 
